@@ -63,6 +63,11 @@ def run_case(case, cl=None):
     hooked = bool(case.get("hook0"))
     if hooked:
         s.g.add_hook(rewriting_hook)
+    for name, lo, hi in case.get("limits") or ():
+        # limits in force: calls get rejected mid-history, and a rejected call
+        # must leave the state in step with the program as well
+        s.g.set_bounds(name, lo, hi)
+        cl.add("limits_in_force")
     src = []
     for call in case["calls"]:      # "repeat": an earlier call is issued again, verbatim
         if call["op"] == "repeat":
@@ -176,6 +181,12 @@ def strategy(n):
                                  "body": st.lists(sh.call_strategy(), max_size=4)})
     return st.fixed_dictionaries({
         "dp": st.integers(3, 9), "hook0": st.sampled_from([False, False, True]),
+        "limits": st.sampled_from([None, None, None,
+                                   [["axes", [-8.0, -8.0, -8.0], [8.0, 8.0, 8.0]]],
+                                   [["axes", [0.0, 0.0, 0.0], [15.0, 15.0, 5.0]],
+                                    ["feed-rate", 10.0, 2000.0]],
+                                   [["tool-power", 5.0, 1000.0], ["bed-temperature", 0.0, 120.0],
+                                    ["hotend-temperature", 0.0, 280.0]]]),
         "calls": st.lists(hist.weighted(
             (8, sh.call_strategy()), (1, hook), (1, ctx),
             (2, st.integers(0, 3).map(lambda b: {"op": "repeat", "back": b})),
